@@ -342,3 +342,73 @@ def _verify(contract, index, schema_mod, fs, res):
             res.obligations.append(ObligationResult(f"{contract.name}.{ename}", "vacuous", 0.0,
                                                     detail="no normally terminating path", kind="post"))
     res.engine = eng
+
+
+def contract_handler(c):
+    """Call-site use of a contract: check requires, havoc the frame, assume ensures (modular verification)."""
+    def h(eng, st, recv, args, kwargs, node):
+        names = list(c.params)
+        vals = ([recv] if (recv is not None and not isinstance(recv, VClass)) else []) + list(args)
+        frame = {}
+        for n, v in zip(names, vals):
+            frame[n] = v
+        for n in names[len(vals):]:
+            if n in kwargs:
+                frame[n] = kwargs[n]
+            else:
+                k = c.params[n]
+                if isinstance(k, tuple) and k[1] == "nullable":
+                    frame[n] = NONE
+                elif not isinstance(k, (Kind, tuple)):
+                    frame[n] = k
+                else:
+                    raise Untranslatable(f"call of {c.name} by contract: missing argument {n}", node)
+        st.frames.append(frame)
+        try:
+            for i, r in enumerate(c.requires):
+                t = eng.ev_merged(parse_expr(r), st, want_bool=True)
+                eng.oblige(st, f"call.{c.name}.requires{i}", t.term, node, kind="pre")
+            pre = st.copy()
+            outcomes = [(st, None)]
+            for exc, when in c.raises.items():
+                nxt = []
+                for stx, _ in outcomes:
+                    if when is None:
+                        cond = fresh(BOOL, "mayraise").term
+                    else:
+                        cond = eng.ev_merged(parse_expr(when), stx, want_bool=True).term
+                    for sty, b in eng.fork(stx, cond, f"call.{c.name}.raises.{exc}"):
+                        if b:
+                            sty.frames.pop()
+                            eng.raise_exc(sty, exc, node)
+                        else:
+                            nxt.append((sty, None))
+                outcomes = nxt
+            for stx, _ in outcomes:
+                for f in (c.frame or []):
+                    owner, field = f.split(".")
+                    _, kind = eng.field_kind(owner, field)
+                    if kind is not None and kind.smt:
+                        stx.heap[f] = z3.Const(fresh_name("H_" + f), z3.ArraySort(RefSort, kind.sort()))
+                        stx.writes.add(f)
+                if c.result_kind is None:
+                    result = NONE
+                elif isinstance(c.result_kind, Kind):
+                    result = fresh(c.result_kind, "res_" + c.name.split(".")[-1])
+                else:
+                    result = c.result_kind
+                stx.locals["result"] = result
+                saved = eng.entry_state
+                eng.entry_state = pre
+                try:
+                    for ename, expr in c.ensures:
+                        t = eng.ev_merged(parse_expr(expr), stx, want_bool=True)
+                        stx.assume(t.term)
+                finally:
+                    eng.entry_state = saved
+                stx.frames.pop()
+                yield stx, result
+        finally:
+            pass
+    h.contract = c
+    return h
